@@ -324,18 +324,22 @@ def _climate_clause(rec, E, T, N, taumax, lag, sym, want):
                        15.0 * np.arange(N), silence_level=3)
         data = ClimateData(np.array(E, dtype=float), grid, time_cycle=1,
                            anomalies=True, silence_level=3)
+        if lag is None:      # documented defaults
+            return EventSeriesClimateNetwork(
+                data, method="ES", symmetrization=sym, silence_level=3)
         return EventSeriesClimateNetwork(
             data, method="ES", taumax=_taumax(taumax), lag=lag,
             symmetrization=sym, silence_level=3)
-    ok, net = rec.call("climate_network_ES_%s_construct" % sym, _quiet, build)
+    tag = sym + ("_defaults" if lag is None else "")
+    ok, net = rec.call("climate_network_ES_%s_construct" % tag, _quiet, build)
     if not ok:
         return
-    rec.label("climate_network_sym=" + sym)
+    rec.label("climate_network_sym=" + tag)
     ok, S = rec.call("climate_network_similarity", net.similarity_measure)
     if ok:
         _cmp_matrix(rec, S, [[None if i == j else abs(want[i][j])
                               for j in range(N)] for i in range(N)],
-                    "climate_network_es_%s_similarity_equals_formula" % sym,
+                    "climate_network_es_%s_similarity_equals_formula" % tag,
                     1e-6, False)
     A = np.asarray(net.adjacency)
     exp = np.array([[0 if i == j else int(abs(want[i][j]) > 1e-9)
@@ -343,7 +347,7 @@ def _climate_clause(rec, E, T, N, taumax, lag, sym, want):
     sure = np.array([[i != j and not 0 < abs(want[i][j]) <= 1e-6
                       for j in range(N)] for i in range(N)])
     rec.check(A.shape == (N, N) and bool((A[sure] == exp[sure]).all()),
-              "climate_network_es_%s_links_positive_pairs" % sym,
+              "climate_network_es_%s_links_positive_pairs" % tag,
               lambda: "adjacency %s expected %s" % (A.tolist(), exp.tolist()))
 
 
@@ -428,6 +432,20 @@ def oracle_matrix(case, rec):
                 want[i][j] is not None for i in range(N) for j in range(N)
                 if i != j):
             _climate_clause(rec, E, T, N, taumax, lag, sym0, want)
+            # a second network built afterwards WITHOUT taumax / lag must
+            # use the documented defaults (inf, 0), not the first one's
+            Ddef = [[0.0] * N for _ in range(N)]
+            for i in range(N):
+                for j in range(i + 1, N):
+                    a, b, info = ref.es_strengths(times[i], times[j],
+                                                  _taumax(None), Fraction(0))
+                    if info["status"] != "ok" or info["both_directions"]:
+                        a = b = None
+                    Ddef[i][j], Ddef[j][i] = a, b
+            wdef = ref.symmetrise(Ddef, sym0)
+            if all(wdef[i][j] is not None for i in range(N)
+                   for j in range(N) if i != j):
+                _climate_clause(rec, E, T, N, None, None, sym0, wdef)
     else:
         if any(not t for t in times):
             rec.label("series_without_events")
